@@ -16,5 +16,6 @@ PROP = {
         native("c02"),
         miri("c02", seeds_q=0, seeds_t=16, scale=100),
         san("asan", "c02", scale=5),
-    ],
+            gen("C02"),
+        ],
 }
